@@ -169,3 +169,18 @@ func MixedFragment(extraLeaves ...string) *Fragment {
 	}
 	return f
 }
+
+// OpsFragment is X_ops (C03): every operator over single-letter leaves.
+func OpsFragment() *Fragment {
+	return &Fragment{
+		Idents: Tks("a", "b"),
+		Funcs:  Tks("not_null", "sort_by"),
+		Leaves: Tks("@", "`1`", "'r'"),
+		Nums:   Tks("0"),
+		Slices: [][]model.Tok{Tks(":"), Tks("1", ":"), Tks(":", ":", "-1")},
+		Cmps:   Tks("==", "<"),
+		Star:   true, WildIdx: true, Flatten: true, Filter: true, Dot: true, Pipe: true, Or: true, And: true,
+		Not: true, Paren: true, MaxList: 2, MaxHash: 2, MaxArgs: 2, MinArgs: 1, ExpRef: true,
+		Weight: StructuralWeight,
+	}
+}
